@@ -513,17 +513,28 @@ def query_case(name, dim, sx, sy, seed, mixed=False):
         if not np.allclose(res["coords"][1], want, rtol=1e-9, atol=1e-12):
             return ("klein.exact", "Klein coordinates differ from x_i / x_0 of the exact payload")
     if name == "Isometry.fixed_points":
-        # law FixedBy on the library's output, with the exact integer matrix of the unit
+        # laws on the library's output, with the exact integer matrix of the unit, for the units TLC marks as hyperbolic
+        # (two real fixed ideal points; the matrix may be the negative representative): each returned point is fixed
+        # (FixedBy) and the pair is ordered by descending eigenvalue MODULUS (documented: the first one, and
+        # fixed_point(), has maximum modulus) - checked on the composite's entries and so, through the per-index
+        # comparison above, on the unit results
         mats = cc.prim_rows(TABS, cls, dim, xids)
         fp = np.asarray(res["fixed_point_pair"][1]).reshape(len(xids), 2, -1)
+        f1 = np.asarray(res["fixed_point"][1]).reshape(len(xids), -1)
         for i in range(len(xids)):
             if not TABS.units[dim][cls][(xids[i], ())]["lox"]:
                 continue
-            for r in range(2):
-                v = fp[i, r]
-                if np.isfinite(v).all() and np.abs(v).max() > 0:
-                    if cc.proj_dev((v @ mats[i])[None], v[None])[0] > 1e-7:
-                        return ("fixed_point_pair.FixedBy", "returned point %d of unit %d is not fixed by the exact matrix" % (r, xids[i]))
+            mods = []
+            for v in (fp[i, 0], fp[i, 1], f1[i]):
+                if not (np.isfinite(v).all() and np.abs(v).max() > 0):
+                    return ("fixed_points.finite", "unit %d: non-finite fixed point" % xids[i])
+                w = v @ mats[i]
+                if cc.proj_dev(w[None], v[None])[0] > 1e-7:
+                    return ("fixed_point_pair.FixedBy", "a returned point of unit %d is not fixed by the exact matrix" % xids[i])
+                mods.append(float(np.linalg.norm(w) / np.linalg.norm(v)))
+            if not (mods[0] > 1 + 1e-6 and mods[1] < 1 - 1e-6 and mods[2] > 1 + 1e-6):
+                return ("fixed_points.DescendingModulus", "unit %d (exact matrix %s): eigenvalue moduli of fixed_point_pair()[0], [1], "
+                        "fixed_point() are %.4g, %.4g, %.4g" % (xids[i], mats[i].astype(int).tolist(), mods[0], mods[1], mods[2]))
     # queries do not move the operand (C11 checks histories; this is the single-call version)
     m = cc.moved(xsnap, X, whole=TABS.whole[cls])
     if m:
@@ -584,6 +595,41 @@ def sl2_case(dim, s, seed):
     return None
 
 
+def eigenvector_case(dim, s, seed):
+    """Transformation.eigenvector on composites of transformations with a REPEATED eigenvalue (exact integer
+    matrices of CompUnits.tla): entry i is what the unit transformation returns, and is an eigenvector"""
+    H, P = cc._mods()
+    tab = TABS.eig[dim]
+    rng = rng_for(seed, "eig", dim, s)
+    ids = [rng.randrange(len(tab["mats"])) for _ in range(size(s))]
+    n = dim + 1
+    arr = np.stack([tab["mats"][i] for i in ids]).reshape(tuple(s) + (n, n))
+    for C in (P.Transformation,):
+        for lam in (tab["lam"], tab["mu"], None):
+            try:
+                with warnings.catch_warnings():
+                    warnings.simplefilter("ignore")
+                    R = C(arr.copy()).eigenvector(lam)
+                    U = [C(tab["mats"][i].copy()).eigenvector(lam) for i in ids]
+            except Exception as e:
+                return ("eigenvector(%r).raised" % lam, "%s: %s" % (type(e).__name__, e))
+            if tuple(R.shape) != tuple(s):
+                return ("eigenvector(%r).shape" % lam, "%r, spec %r" % (tuple(R.shape), tuple(s)))
+            A = np.real(np.asarray(R.proj_data)).reshape(len(ids), n)
+            E = np.stack([np.real(np.asarray(u.proj_data)).reshape(n) for u in U])
+            d = cc.proj_dev(A, E)
+            if not (d <= 1e-8).all():
+                p = int(np.argmax(~(d <= 1e-8)))
+                return ("eigenvector(%r).value" % lam, "entry %d (matrix %s) is the point %s, the unit transformation returns %s"
+                        % (p, tab["mats"][ids[p]].astype(int).tolist(), np.round(A[p], 6).tolist(), np.round(E[p], 6).tolist()))
+            if lam is not None:
+                for p in range(len(ids)):
+                    M = tab["mats"][ids[p]]
+                    if cc.proj_dev((M.T @ A[p])[None], A[p][None])[0] > 1e-7 and cc.proj_dev((A[p] @ M)[None], A[p][None])[0] > 1e-7:
+                        return ("eigenvector(%r).IsEigenvector" % lam, "entry %d is not an eigenvector of the exact matrix" % p)
+    return None
+
+
 def query_chunk(args):
     cases, seed = args
     global OPS
@@ -600,6 +646,8 @@ def query_chunk(args):
                 bad = polygon_from_points_case(c[1], c[2], seed)
             elif c[0] == "SL(2) maps":
                 bad = sl2_case(c[1], c[2], seed)
+            elif c[0] == "Transformation.eigenvector":
+                bad = eigenvector_case(c[1], c[2], seed)
             else:
                 bad = query_case(c[0], c[1], c[2], c[3], seed, mixed=len(c) > 4 and c[4])
         except core.MachineryFailure:
@@ -716,6 +764,8 @@ def run(run, replay=None):
                 cases.append(("Polygon(points)", dim, s, None))
     for s in shapes:
         cases.append(("SL(2) maps", 2, s, None))
+        for dim in (2, 3):
+            cases.append(("Transformation.eigenvector", dim, s, None))
     rng.shuffle(cases)
     tot = 0
     for (n, viol, sample, per) in pool_map(query_chunk, cases, run.seed, nproc):
